@@ -195,6 +195,34 @@ def run(ctx):
     elif not r.ok:
         raise tlc.TLCError("trace validation failed:\n" + r.stdout[-3000:])
     ctx.extra["traversal_events_validated"] = sum(len(x["ev"]) for x in recs)
+    # ---- T(c): a bridged cysteine is not titrated - whatever the options say ------------------------------------
+    from .. import corpus as C, runbank
+    pair, _p, _q = C.disulfide_pair()
+    ss = C.chain_lines("3SGB", "E", 12, 4) + [C.TER] + C.rename_chain(C.chain_lines("3SGB", "E", 32, 4), "E", "F") + [C.TER]
+    cases = []
+    for nm, ls, lst in (("disulfide-pair", pair, "E:42,F:58"), ("frag-3SGB-disulfide", ss, "E:42,F:58"),
+                        ("frag-3SGB-disulfide", ss, "E:42"), ("frag-3SGB-disulfide", ss, "E:41,E:42,E:43,F:57,F:58,F:59")):
+        text = C.join(ls)
+        if (nm, text, []) not in cases:
+            cases.append((nm, text, []))
+            cases.append((nm + " --protonate-all", text, ["--protonate-all"]))
+            cases.append((nm + " -d", text, ["-d"]))
+        cases.append((f"{nm} -i {lst}", text, ["-i", lst]))
+    if ctx.thorough():
+        cases.append(("3SGB -i all-cys", C.test_pdb_text("3SGB"), ["-i", ",".join(
+            sorted({f"{ln[21]}:{int(ln[22:26])}" for ln in C.test_pdb_text("3SGB").splitlines() if C.is_atom(ln) and ln[17:20] == "CYS"}))]))
+    rrecs, metas, _ = runbank.run_and_record(ctx, cases)
+    for m, c in zip(metas, cases):
+        if "exc" in m:
+            ctx.violation(f"bridge-run:exception:{c[0]}", f"{m}", {"pdb": c[1], "optargs": c[2]})
+        else:
+            ctx.nontriv(("bridge-run", c[0]))
+    bv = runbank.validate(ctx, rrecs, metas, ["C01_Bridge"], "bridged cysteines of full runs")
+    texts = {c[0]: c for c in cases}
+    for inv, lst in sorted(bv.items()):
+        for rec, m in lst[:3]:
+            ctx.violation(f"bridge-run:titrated:{m['input'].split(' -')[0]}:{' '.join(m['optargs'][:1]) or 'default'}",
+                          f"a bridged cysteine titrates (or is not 99.99) in {m}", {"pdb": texts[m["input"]][1], "optargs": m["optargs"]})
 
 
 def record_traversal(bm, atoms):
